@@ -470,6 +470,7 @@ func runMS(t *testing.T, sc *msSc) (res verifsim.Result) {
 	// sides of a disconnect notification may coexist.
 	{
 		live := map[int]*cliEvent{} // peer -> open event of its live stream
+		acrossDisconnect := false
 	scan:
 		for i := range cliEvents {
 			e := &cliEvents[i]
@@ -487,6 +488,15 @@ func runMS(t *testing.T, sc *msSc) (res verifsim.Result) {
 						if int(d[0]) == e.Peer && d[1] >= lo && d[1] <= hi {
 							excused = true
 						}
+					}
+					if excused && !acrossDisconnect {
+						// Two streams to one peer at once, the calls having started on different sides of a disconnect notification:
+						// the notification takes the peer's sender out of the map at once but invalidates it only when its lock is
+						// free, so a call made in between gets a new sender - and a second stream - while the exchange in flight goes
+						// on on the old one. The statement allows at most one stream "for any mix of ... disconnect notifications":
+						// reported, under a signature of its own (listed as a known finding).
+						acrossDisconnect = true
+						res.Fail("one-stream", "C11/stream/two-live-streams-across-disconnect", "stream %d to peer %d opened at %v by %s (started %v) while stream %d (opened %v by %s, started %v) was neither reset nor closed; a disconnect of the peer was notified between the starts of the two calls", e.Stream, e.Peer, e.At, e.Op, e.OpStart, prev.Stream, prev.At, prev.Op, prev.OpStart)
 					}
 					if !excused {
 						var hist []string
@@ -602,7 +612,7 @@ func c11MessageSenderCheck() verifsim.Check[msSc] {
 			"separately for the first and the retried attempt; optionally slow dials (0-3 s), remotes that pick requests up late - or never - with client writes blocking until then (exhausted send window), and drawn virtual pauses at the build-tag yield points " +
 			"of the sender bookkeeping (between registering a sender and locking it, before removing a failed one, before a disconnect invalidates), so that the harness owns those interleavings; " +
 			"oracle = every successful request returns the echo of its own id written during the call, failures are bounded, exchanges on one stream never overlap, nothing is written after a reset, " +
-			"a stream is never used again after a failed exchange, and a stream to a peer is only opened once the previous one was reset or closed unless a disconnect was notified between the starts of the two calls; " +
+			"a stream is never used again after a failed exchange, and a stream to a peer is only opened once the previous one was reset or closed (two live streams whose calls started on different sides of a disconnect notification are reported under a signature of their own, a known finding); " +
 			"non-trivial = concurrent requests to one peer with a failed exchange followed by a successful one",
 		Gen: func(t *rapid.T) msSc {
 			var sc msSc
